@@ -23,10 +23,11 @@ wf_nh = partial(e2.rule_wellfounded, programs=("nonhermitian",))
 wf_all = partial(e2.rule_wellfounded, programs=("main", "nonhermitian"))
 tv_shipped = partial(e9.rule_translation, which=("main", "nonhermitian"))
 diag_solver_real = partial(e7b.rule_diagonal_solver, complex_energies=False)  # Hermitian H_0: real energies
+start_data_shipped = partial(e9.rule_start_data, all_programs=False)
 
 # ideal DSL semantics tied to the code: shared by the algorithm-level properties
 CORE = [e1b.rule_projection_pairs, e1b.rule_scope_flags, e2c.rule_product_by_order, e2c.rule_adjoint_fill, e2c.rule_cauchy_wiring,
-        e4.rule_value_preserving, tv_shipped, e9.rule_runtime_support, e9.rule_exec_scope, e11.rule_helpers,
+        e4.rule_value_preserving, tv_shipped, e9.rule_runtime_support, e9.rule_exec_scope, start_data_shipped, e11.rule_helpers,
         # what the series H *is*: input normalisation of symbolic / list / dict Hamiltonians (Taylor coefficients, order keys)
         e2b.rule_taylor, e2b.rule_key_normalisation,
         # `every Hamiltonian accepted by block_diagonalize` includes implicit mode: the exact (direct) implicit solver and the
@@ -118,7 +119,7 @@ prop(
     "C07", level="other", selftest=["block_diagonalization", "second_quantization", "number_ordered_form", "algorithms"],
     rules=[main_e1, wf_main, e12.rule_operator_mode, e7.rule_solve_scalar, e1b.rule_projection_pairs, e1b.rule_scope_flags,
            e10.rule_operator_order, e10.rule_fermion_crossing, e10.rule_shift_table, e10.rule_linear_structure,
-           e2c.rule_product_by_order, e2c.rule_cauchy_wiring, e2c.rule_adjoint_fill, tv_shipped, e9.rule_runtime_support, e9.rule_exec_scope,
+           e2c.rule_product_by_order, e2c.rule_cauchy_wiring, e2c.rule_adjoint_fill, tv_shipped, e9.rule_runtime_support, e9.rule_exec_scope, start_data_shipped,
            e11.rule_helpers, e4.rule_loop_carried_state, e4.rule_memo_key],
     explanation=(
         "Narrow claim: ONE clause of C07 is decided, the last one -- `the operator results also satisfy U†U = 1 and "
@@ -158,7 +159,7 @@ prop(
     "C09", level="translation_validation", selftest=["algorithm_parsing", "series"],
     rules=[e9.rule_translation, e9.rule_translation_corpus, e9.rule_runtime_support, wf_all, e2c.rule_adjoint_fill, e8.rule_implicit_wiring,
            e2c.rule_cauchy_wiring, e2c.rule_product_by_order,  # declared products and their Hermiticity shortcut
-           e9.rule_deletion_safe, e9.rule_exec_scope],
+           e9.rule_deletion_safe, e9.rule_exec_scope, e9.rule_start_data],
     explanation=(
         "The repository's own _parse_algorithm is queried (subprocess, tree under analysis) for the generated "
         "series_eval ASTs of `main`, `nonhermitian` and the documented example; each is interpreted abstractly per "
@@ -185,7 +186,7 @@ prop(
 
 prop(
     "C11", level="other", selftest=["series"],
-    rules=[e3.rule_typestate, e3.rule_memo_owner, e4.rule_closure_state, e7b.rule_shared_eigenvalue_check],
+    rules=[e3.rule_typestate, e3.rule_memo_owner, e4.rule_closure_state, e7b.rule_shared_eigenvalue_check, e3.rule_exceptions_propagate],
     explanation=(
         "Typestate of the in-flight marker on the control-flow graph (with exceptional edges) of the one function that "
         "owns it: from the store of PENDING every path to a normal or exceptional exit passes a store of the result or "
